@@ -55,6 +55,9 @@ type arFn struct {
 	Getters []string       // niladic methods on parameters read as fields (ctx.BlockHeight())
 	Errs    map[string]int // registered error variable -> code used by the model
 	Ext     []string       // package-level functions passed in as parameters (result type res Z)
+	ExtPure []string       // package-level functions passed in as pure parameters (Z -> .. -> Z), e.g. a loop the translator does not enter
+	Wrap64  bool           // uint64 + - * and uint64 <-> signed conversions are modelled with wrap-around (Base/U64.v)
+	Conj    bool           // a boolean target is conjoined with the conditions of the enclosing if statements (negated in else branches)
 }
 
 const arSDK = "github.com/cosmos/cosmos-sdk/types"
@@ -235,6 +238,8 @@ type arInput struct {
 	fallible bool
 	fields   map[string]string // path -> "Z" | "bool"
 	desc     string
+	errRes   bool   // slice mode: the callee's last result is an error (read as the boolean input <name>_err_nil)
+	sig      string // kind 3: Coq type of the function parameter ("" = Z -> Z -> res Z)
 }
 
 var arReserved = map[string]bool{"in": true, "at": true, "as": true, "end": true, "fix": true, "fun": true, "let": true, "with": true, "then": true,
@@ -294,6 +299,10 @@ type arVal struct {
 	base *arVal // rec: fields not in rec are read from base (x.F = e on a struct value)
 	lit  bool   // rec: composite literal (fields not listed are not available)
 	phi  *arPhi // struct value assigned under a condition
+	// slice mode: the error result of a fallible opaque reader
+	ein *arInput
+	// slices of arith2.go: values assigned through an access path rooted at this value, by the path's source text
+	ov map[string]*arVal
 }
 
 type arPhi struct {
@@ -324,6 +333,8 @@ type arCtx struct {
 	tgtPath   []arStep
 	tgtFields []string
 	tgtIf     *ast.IfStmt
+	tgtExpr   ast.Expr // "retval:" / "assign:" target
+	prune     bool     // targets of arith2.go: input fields that do not occur in the value are dropped
 	found     *arVal
 	defs      map[types.Object]ast.Expr                 // slice mode: defining expression of a local
 	defEnv    map[*ast.CallExpr]map[types.Object]*arVal // slice mode: environment at a defining call
@@ -467,6 +478,9 @@ func (c *arCtx) num(n ast.Node, v *arVal) *arTerm {
 	if v.t != nil {
 		return v.t
 	}
+	if v.ein != nil {
+		c.fail(n, "error value used other than in a comparison with nil: %s", c.src(n))
+	}
 	if v.rec != nil {
 		if a, ok := v.rec["Amount"]; ok && len(v.rec) <= 2 && v.base == nil && !v.lit {
 			return c.num(n, a)
@@ -534,6 +548,9 @@ func (c *arCtx) expr(e ast.Expr) *arVal {
 	case *ast.StarExpr:
 		return c.expr(x.X)
 	case *ast.SelectorExpr:
+		if v := c.overridden(e); v != nil {
+			return v
+		}
 		if id, ok := x.X.(*ast.Ident); ok {
 			if _, isPkg := c.p.info.Uses[id].(*types.PkgName); isPkg {
 				if o, ok := c.p.info.Uses[x.Sel].(*types.Var); ok {
@@ -547,6 +564,9 @@ func (c *arCtx) expr(e ast.Expr) *arVal {
 		}
 		return c.sel(e, c.expr(x.X), x.Sel.Name, c.typeOf(e))
 	case *ast.IndexExpr:
+		if v := c.overridden(e); v != nil {
+			return v
+		}
 		v := c.expr(x.X)
 		if v.bad != "" {
 			return v
@@ -700,7 +720,13 @@ func (c *arCtx) binary(x *ast.BinaryExpr) *arVal {
 		}
 		return &arVal{t: arInf(op, a, b), bool: true}
 	}
+	if v := c.errNilTest(x); v != nil {
+		return v
+	}
 	cx, cy := c.classOf(x.X), c.classOf(x.Y)
+	if v := c.wrap64Binary(x, cx, cy); v != nil {
+		return v
+	}
 	if cx == "B" && cy == "B" && (x.Op == token.EQL || x.Op == token.NEQ) {
 		t := arApp("Bool.eqb", c.num(x.X, c.expr(x.X)), c.num(x.Y, c.expr(x.Y)))
 		if x.Op == token.NEQ {
@@ -765,6 +791,9 @@ func (c *arCtx) call(call *ast.CallExpr) *arVal {
 		to, from := arClass(tv.Type), c.classOf(call.Args[0])
 		if to == "N" && from == "N" {
 			return c.expr(call.Args[0])
+		}
+		if v := c.wrap64Conv(call, tv.Type, to, from); v != nil {
+			return v
 		}
 		c.fail(call, "conversion %s (only between signed native integers)", c.src(call))
 	}
@@ -877,6 +906,9 @@ func (c *arCtx) call(call *ast.CallExpr) *arVal {
 					return &arVal{t: arApp("trunc_dec", r)}
 				}
 			}
+			if v := c.decExtra(call, name, r); v != nil {
+				return v
+			}
 			c.fail(call, "method %s of %s is not in the translator's table", name, sig.Recv().Type())
 		}
 	}
@@ -912,6 +944,11 @@ func (c *arCtx) call(call *ast.CallExpr) *arVal {
 					}
 				}
 			}
+			if len(call.Args) == 2 && (c.spec.Wrap64 || len(c.spec.ExtPure) > 0) {
+				// NewIntWithDecimal(n, d) = n * 10^d (the SDK panics on d < 0; Z.pow gives 0 there)
+				a := args(2)
+				return &arVal{t: arInf("*", a[0], arInf("^", arLit("10"), a[1]))}
+			}
 			c.fail(call, "NewIntWithDecimal with non-constant arguments")
 		case "MinInt", "LegacyMinDec":
 			a := args(2)
@@ -920,11 +957,17 @@ func (c *arCtx) call(call *ast.CallExpr) *arVal {
 			a := args(2)
 			return &arVal{t: arApp("Z.max", a[0], a[1])}
 		}
+		if v := c.mathExtra(call, name); v != nil {
+			return v
+		}
 		c.fail(call, "function math.%s is not in the translator's table", name)
 	}
 	// sdk.NewCoin(denom, amount): the amount (the constructor's own panic on a negative amount is not part of the value)
 	if full == arSDK+".NewCoin" && len(call.Args) == 2 {
 		return &arVal{rec: map[string]*arVal{"Amount": c.tol(func() *arVal { return c.expr(call.Args[1]) }), "Denom": {bad: "denomination of a coin"}}}
+	}
+	if v := c.coinMethod(call, fn, sig); v != nil {
+		return v
 	}
 	// getters on parameters (ctx.BlockHeight())
 	if sel, ok := call.Fun.(*ast.SelectorExpr); ok && len(call.Args) == 0 {
@@ -951,6 +994,14 @@ func (c *arCtx) call(call *ast.CallExpr) *arVal {
 	// other listed functions
 	if g := c.listed(fn); g != nil {
 		return &arVal{t: c.listedCall(call, g)}
+	}
+	// external functions passed in as pure parameters
+	if inp := c.extPureInput(fn); inp != nil {
+		var ts []*arTerm
+		for _, a := range call.Args {
+			ts = append(ts, c.num(a, c.expr(a)))
+		}
+		return &arVal{t: arApp(inp.name, ts...)}
 	}
 	// external functions passed in as parameters
 	if inp := c.extInput(fn); inp != nil {
@@ -1040,7 +1091,7 @@ func (c *arCtx) listedCall(call *ast.CallExpr, g *arFn) *arTerm {
 // lhs (may be nil): the assignment's left-hand sides; a result assigned to _ is not an input
 func (c *arCtx) opaqueResult(call *ast.CallExpr, inp *arInput, sig *types.Signature, lhs []ast.Expr) *arVal {
 	n := sig.Results().Len()
-	if inp.fallible {
+	if inp.fallible || inp.errRes {
 		n--
 	}
 	if n == 1 {
@@ -1243,13 +1294,16 @@ func (c *arCtx) bindLhs(l ast.Expr, v *arVal) {
 			c.fail(l, "assignment to %s", c.src(l))
 		}
 		if sel, ok := l.(*ast.SelectorExpr); ok {
-			if x, ok := sel.X.(*ast.Ident); ok && x == rid && old.bad == "" && old.t == nil && old.tup == nil && !old.null {
+			if x, ok := sel.X.(*ast.Ident); ok && x == rid && (old.bad == "" || c.prune) && old.t == nil && old.tup == nil && !old.null {
 				c.env[ro] = &arVal{rec: map[string]*arVal{sel.Sel.Name: v}, base: old}
 				return
 			}
 		}
 		if !c.slice {
 			c.fail(l, "assignment to %s (only locals and their direct fields can be assigned)", c.src(l))
+		}
+		if c.prune && c.override(ro, old, l, v) {
+			return
 		}
 		c.env[ro] = &arVal{bad: "assigned through " + c.src(l) + " at " + c.pos(l)}
 		return
@@ -1583,6 +1637,9 @@ func (c *arCtx) target() ast.Node {
 	if c.tgtCall != nil {
 		return c.tgtCall
 	}
+	if c.tgtExpr != nil {
+		return c.tgtExpr
+	}
 	return c.tgtIf
 }
 
@@ -1758,6 +1815,8 @@ func (c *arCtx) walkStmt(s ast.Stmt) {
 					c.bindLhs(l, v)
 				case i < len(v.tup):
 					c.bindLhs(l, v.tup[i])
+				case i == len(x.Lhs)-1 && c.errInputOf(x.Rhs[0]) != nil:
+					c.bindLhs(l, &arVal{ein: c.errInputOf(x.Rhs[0])})
 				default:
 					c.bindLhs(l, &arVal{bad: "error value"})
 				}
@@ -1820,6 +1879,7 @@ func (c *arCtx) walkStmt(s ast.Stmt) {
 			els = []ast.Stmt{x.Else}
 		}
 		if has {
+			pc := c.pathCondOf(x, tgt)
 			if arContains(x.Body, tgt) {
 				c.walk(x.Body.List)
 			} else if x.Else != nil && arContains(x.Else, tgt) {
@@ -1830,6 +1890,7 @@ func (c *arCtx) walkStmt(s ast.Stmt) {
 			if c.found == nil {
 				c.fail(s, "target not reached inside %s", c.src(s))
 			}
+			c.applyPathCond(x, pc)
 			return
 		}
 		cond := c.tol(func() *arVal { return &arVal{t: c.num(x.Cond, c.expr(x.Cond)), bool: true} })
@@ -1868,6 +1929,10 @@ func (c *arCtx) walkStmt(s ast.Stmt) {
 		}
 		return
 	case *ast.RangeStmt:
+		if c.prune {
+			c.walkRange2(x, has)
+			return
+		}
 		outer := c.assignedOuter([]ast.Stmt{x.Body}, x.Pos())
 		if !has {
 			c.poison(outer, "assigned inside the loop at "+c.pos(s))
@@ -1891,6 +1956,18 @@ func (c *arCtx) walkStmt(s ast.Stmt) {
 		}
 		return
 	case *ast.ForStmt, *ast.SwitchStmt, *ast.TypeSwitchStmt, *ast.SelectStmt:
+		if sw, ok := s.(*ast.SwitchStmt); ok && has {
+			c.walkSwitch(sw)
+			return
+		}
+		if fs, ok := s.(*ast.ForStmt); ok && has {
+			c.walkFor(fs)
+			return
+		}
+		if fs, ok := s.(*ast.ForStmt); ok && c.prune {
+			c.afterLoop(c.assignedOuter([]ast.Stmt{fs}, fs.Pos()), fs)
+			return
+		}
 		if has {
 			c.fail(s, "target inside %T", s)
 		}
@@ -1898,6 +1975,10 @@ func (c *arCtx) walkStmt(s ast.Stmt) {
 		return
 	}
 	if has {
+		if c.tgtExpr != nil {
+			c.found = c.expr(c.tgtExpr)
+			return
+		}
 		if c.tgtCall == nil {
 			c.fail(s, "target statement %T", s)
 		}
@@ -2014,7 +2095,9 @@ func (c *arCtx) parseTarget() {
 			c.fail(c.fn, "target %s: the function has %d calls of %s", t, n, callee)
 		}
 	default:
-		c.fail(c.fn, "malformed target %s", t)
+		if !c.parseTarget2(t) {
+			c.fail(c.fn, "malformed target %s", t)
+		}
 	}
 }
 
@@ -2100,7 +2183,7 @@ func arTranslate(l *detLoader, spec *arFn, group []*arFn) (out string, err error
 				count[full]++
 				s := fn.Type().(*types.Signature)
 				inp := &arInput{name: fmt.Sprintf("%s%d", fn.Name(), count[full]), kind: 1, ord: [3]int{1, i, count[full]},
-					fallible: c.fallibleResults(s), fields: map[string]string{}, desc: fmt.Sprintf("result of call %d of %s", count[full], full)}
+					fallible: c.fallibleResults(s) && !c.slice, errRes: c.fallibleResults(s) && c.slice, fields: map[string]string{}, desc: fmt.Sprintf("result of call %d of %s", count[full], full)}
 				c.opq[call] = inp
 				c.inputs = append(c.inputs, inp)
 			}
@@ -2114,6 +2197,7 @@ func arTranslate(l *detLoader, spec *arFn, group []*arFn) (out string, err error
 			c.fail(fd, "slice targets are translated in pure mode only")
 		}
 		c.res = false
+		c.prune = arIsSpec2(spec)
 		c.parseTarget()
 		c.walk(fd.Body.List)
 		if c.found == nil {
@@ -2123,6 +2207,7 @@ func arTranslate(l *detLoader, spec *arFn, group []*arFn) (out string, err error
 		if len(c.binds) > 0 {
 			c.fail(fd, "slice depends on a fallible or checked operation")
 		}
+		c.pruneErrFields(t)
 		body.WriteString("  " + t.String())
 		resultType = "Z"
 		if c.found.bool {
@@ -2171,6 +2256,9 @@ func arTranslate(l *detLoader, spec *arFn, group []*arFn) (out string, err error
 		switch {
 		case inp.kind == 3:
 			ar := "Z -> Z -> res Z"
+			if inp.sig != "" {
+				ar = inp.sig
+			}
 			params = append(params, fmt.Sprintf("(%s : %s)", inp.name, ar))
 			doc = append(doc, fmt.Sprintf("%s : %s", inp.name, inp.desc))
 		case inp.fallible:
@@ -2273,6 +2361,11 @@ func genArith(kind, repo, out string) error {
 			fns = append(fns, &arSpecs[i])
 		}
 	}
+	for i := range arSpecs2 {
+		if arSpecs2[i].Group == group {
+			fns = append(fns, &arSpecs2[i])
+		}
+	}
 	if len(fns) == 0 {
 		return fmt.Errorf("no functions listed for group %q", group)
 	}
@@ -2286,7 +2379,7 @@ func genArith(kind, repo, out string) error {
 	var sb strings.Builder
 	sb.WriteString("(* GENERATED by tools/gotrans arith" + group + " from the Go sources; do not edit.\n")
 	sb.WriteString("   One definition per listed Go function; Proofs/ArithTie" + group + ".v proves each equal to the hand-written model. *)\n")
-	sb.WriteString("From Coq Require Import ZArith Bool.\nFrom Elys Require Import Base.Res Base.Zdec Base.ZdecChk.\nOpen Scope Z_scope.\n\n")
+	sb.WriteString("From Coq Require Import ZArith Bool.\nFrom Elys Require Import Base.Res Base.Zdec Base.ZdecChk" + arExtraImports(fns) + ".\nOpen Scope Z_scope.\n\n")
 	var errs []string
 	for _, f := range fns {
 		txt, err := arTranslate(l, f, fns)
